@@ -1,16 +1,28 @@
 #!/usr/bin/env python3
-"""store a confirmed seeded change under /verif/seeded/<name>/ : patch.diff, demonstration, meta.json"""
+"""store a confirmed seeded change under /verif/seeded/<name>/ : patch.diff, demonstration, meta.json
+usage: seedstore.py <name> <mutant id (dir /tmp/mutout-<id>)> <property> <needs_to_manifest> <caught_by>
+The confirmation and the check results are taken from /var/tmp/mutrun-<id>.log (written by tools/mutrun.sh)."""
 import sys, os, json, shutil
-name, src, prop, needs, caught = sys.argv[1:6]
-ran = sys.argv[6] if len(sys.argv) > 6 else ""
+
+name, mid, prop, needs, caught = sys.argv[1:6]
+src = "/tmp/mutout-" + mid
 dst = os.path.join("/verif/seeded", name)
 os.makedirs(dst, exist_ok=True)
-for f in os.listdir(src):
-    p = os.path.join(src, f)
-    if os.path.isfile(p) and os.path.getsize(p) < 400000 and not f.endswith((".o", ".log")) or f in ("NOTES.md",):
-        shutil.copy(p, dst)
+SKIP_DIRS = ("pristine", "build", "__pycache__")
+for root, dirs, files in os.walk(src):
+    dirs[:] = [x for x in dirs if x not in SKIP_DIRS]
+    rel = os.path.relpath(root, src)
+    for f in files:
+        p = os.path.join(root, f)
+        if os.path.getsize(p) < 300000 and not f.endswith((".o", ".log", ".pyc", ".capnpbin")):
+            os.makedirs(os.path.join(dst, rel), exist_ok=True)
+            shutil.copy(p, os.path.join(dst, rel, f))
+log = open("/var/tmp/mutrun-%s.log" % mid).read() if os.path.exists("/var/tmp/mutrun-%s.log" % mid) else ""
 meta = dict(property=prop, needs_to_manifest=needs, caught_by=caught,
-            confirmed="tools/seedcheck.sh: patch applied to a scratch copy of /repo: `make check` PASS for gtest and csa_test; run_demo.sh exits 0 on the pristine copy and non-zero on the patched copy",
-            checks_run=ran, origin="written by an independent sub-agent that was given only the property text and a scratch worktree")
+            confirmed="tools/mutrun.sh in the sub-agent's scratch worktree of /repo: `make check` PASS for gtest and csa_test with the "
+                      "change; run_demo.sh exits 0 on the unchanged /repo and 1 on the changed worktree; then the named checks were run "
+                      "against the changed worktree (TRV_REPO)",
+            what_was_run=log,
+            origin="written by an independent sub-agent that was given only the property record and a scratch worktree of /repo")
 json.dump(meta, open(os.path.join(dst, "meta.json"), "w"), indent=1)
 print("stored", dst, sorted(os.listdir(dst)))
